@@ -146,7 +146,10 @@ func init() {
 					lt, th := auth.VerifLifetimes()
 					return fmt.Sprintf("lifetime=%d;threshold=%d", lt.Milliseconds(), th.Milliseconds())
 				case "login": // user pw cookieRef
-					rec := do("POST", "/api/auth/login", f[4], "-", "-", fmt.Sprintf(`{"username":%q,"password":%q}`, f[2], f[3]))
+					// password tokens may carry escaped white space (+sp +nl +tab): the password is what it is, byte for byte
+					pwd := strings.NewReplacer("+sp", " ", "+nl", "\n", "+tab", "\t", "+crlf", "\r\n").Replace(f[3])
+					usr := strings.NewReplacer("+sp", " ").Replace(f[2])
+					rec := do("POST", "/api/auth/login", f[4], "-", "-", fmt.Sprintf(`{"username":%q,"password":%q}`, usr, pwd))
 					res := "invalid"
 					switch {
 					case rec.Code == 200 && strings.Contains(rec.Body.String(), "Already Authenticated"):
@@ -245,7 +248,11 @@ func init() {
 					switch x := r.Intn(100); {
 					case x < 22:
 						user, pw := "alice", "pw-alice"
-						switch r.Intn(6) {
+						switch r.Intn(8) {
+						case 6:
+							pw = []string{"pw-alice+sp", "+sppw-alice", "pw-alice+nl", "+tabpw-alice+tab", "pw-alice+crlf", "PW-ALICE", "pw-alic", "pw-alicee", ""}[r.Intn(9)]
+						case 7:
+							user = []string{"alice+sp", "+spalice", "ALICE"}[r.Intn(3)]
 						case 0:
 							pw = "wrong"
 						case 1:
@@ -260,7 +267,7 @@ func init() {
 							lk = ck
 						}
 						emit("au", "login", user, pw, lk)
-						if user != "mallory" && pw != "wrong" && !(user == "bob" && pw == "pw-alice") {
+						if (strings.EqualFold(user, "alice") && pw == "pw-alice") || (user == "bob" && pw == "pw-bob") {
 							nlogin++ // upper bound; an "already" login issues nothing (refs beyond the issued ones are never-issued cookies)
 						}
 					case x < 32:
